@@ -55,7 +55,7 @@ CHECKS = {
     "C07": {
         "scenarios": [{"name": "convert"}, {"name": "ledger"}, {"name": "avgwindow"}],
         "accept": ["convert:", "conversion:", "holding:passed-over"],
-        "technique": "Lean: Convert succeeds iff its guards hold and then returns floor(amt*src/dst) within int64, src=min/dst=max under PIP-10, value non-increasing, all reject cases; a held conversion is dealt with by the first rated block after it (block-level theorem). Tie: conversions.Convert on edge/random inputs vs the model; chains with graded/ungraded patterns, recorded to_amount vs recorded rates, never executed in the submitting block; PIP-10 chains with short and zero-heavy averaging windows (averages taken at the last rated height, amounts = floor(in*min/max))",
+        "technique": "Lean: priced_with_the_window_mean — along every in-order chain whose averaging windows have no hole the average a block is priced with is, per asset, the mean of the rate table's quotes over the height window ending at the last rated height before it (0 when too few are non-zero), whichever path of GetPegNetRateAverages produced it; Lean: Convert succeeds iff its guards hold and then returns floor(amt*src/dst) within int64, src=min/dst=max under PIP-10, value non-increasing, all reject cases; a held conversion is dealt with by the first rated block after it (block-level theorem). Tie: conversions.Convert on edge/random inputs vs the model; chains with graded/ungraded patterns, recorded to_amount vs recorded rates, never executed in the submitting block; PIP-10 chains with short and zero-heavy averaging windows (averages taken at the last rated height, amounts = floor(in*min/max))",
         "assumptions": ["big.Int arithmetic modelled by Int/Nat"],
         "design_ref": "DESIGN.md §7 C07",
     },
